@@ -296,8 +296,17 @@ func azIV(c *suiteCtx, email string, ds []string) {
 	c.count("iv:" + fmt.Sprint(got))
 }
 
+var azAOSeq int
+
 func azAO(c *suiteCtx, q [][2]string, email string, groups []string, present bool) {
-	req, err := http.NewRequest("GET", "http://h/oauth2/auth?"+rawQuery(q), nil)
+	// every fourth case carries a malformed SIBLING parameter: the constraints as written stay in force (url.Values semantics:
+	// pairs that do not parse are dropped, the others count)
+	raw := rawQuery(q)
+	azAOSeq++
+	if azAOSeq%4 == 0 {
+		raw += []string{"&rd=%zz", "&x=1;y=2", "&%", "&=&&", "&next=%2"}[(azAOSeq/4)%5]
+	}
+	req, err := http.NewRequest("GET", "http://h/oauth2/auth?"+raw, nil)
 	if err != nil {
 		return
 	}
@@ -326,7 +335,7 @@ func azAO(c *suiteCtx, q [][2]string, email string, groups []string, present boo
 			c.count("known:authonly-host-forms")
 		} else {
 			c.violation("C08", fmt.Sprintf("authOnlyAuthorize accepts a session (%q, groups %q) that does not satisfy the query constraints", email, groups),
-				map[string]interface{}{"query": rawQuery(q), "email": email, "groups": groups})
+				map[string]interface{}{"query": raw, "email": email, "groups": groups})
 		}
 	}
 	if len(azEntities(q, "allowed_email_domains")) > 0 {
